@@ -16,7 +16,7 @@ from ..ctx import CTX, RunTooBig
 from ..history import History, canon, canon_outcome, digest, same
 from ..rng import Streams, chance, pick, weighted
 from ..sim import apply_op, form_of, build_sim, locations, preload, readable, stack_state, watch_spirals
-from ..world import gen_inputs, gen_request, gen_situation, gen_world, wide_knob
+from ..world import gen_chain_world, gen_inputs, gen_request, gen_situation, gen_world, wide_knob
 from . import Result
 from .c18 import ETERNITY, make_env
 
@@ -42,8 +42,13 @@ def generate(seed: int, tier: str) -> dict:
     wr = st["world"]
     # spiral_cyclic: quasi-circular chains *and* a true cycle, so that some requests
     # fail part-way after a spiral was cut (the purge must happen then too)
-    profile = weighted(wr, [("acyclic", 5), ("spiral", 4), ("spiral_cyclic", 1.5)])
-    world = gen_world(wr, discipline=profile, n_vars=wr.randint(4, 10 if tier == "quick" else 14), max_depth=2, wide=wide_knob(wr, tier, 0.15))
+    profile = weighted(wr, [("acyclic", 5), ("spiral", 3.5), ("spiral_cyclic", 1.5), ("chain", 1.5)])
+    if profile == "chain":
+        # the textbook quasi-circular shape, small and dense (see gen_chain_world)
+        world = gen_chain_world(wr)
+        profile = "spiral"
+    else:
+        world = gen_world(wr, discipline=profile, n_vars=wr.randint(4, 10 if tier == "quick" else 14), max_depth=2, wide=wide_knob(wr, tier, 0.15))
     ir = st["inputs"]
     situation = gen_situation(ir, world, max_persons=5)
     inputs = gen_inputs(ir, world, p=0.4)
